@@ -746,6 +746,13 @@ orc_compiler_check_sizes (OrcCompiler *compiler)
         compiler->result = ORC_COMPILE_RESULT_UNKNOWN_PARSE;
         return;
       }
+      if ((opcode->flags & ORC_STATIC_OPCODE_STORE) &&
+          compiler->vars[insn->dest_args[j]].vartype != ORC_VAR_TYPE_DEST) {
+        ORC_COMPILER_ERROR(compiler, "opcode %s stores to an array, its operand is not a destination",
+            opcode->name);
+        compiler->result = ORC_COMPILE_RESULT_UNKNOWN_PARSE;
+        return;
+      }
       if (multiplier * opcode->dest_size[j] > ORC_MAX_VAR_SIZE) {
         ORC_COMPILER_ERROR (compiler, "opcode %s dest[%d] needs a %d-byte variable, the limit is %d",
             opcode->name, j, multiplier * opcode->dest_size[j], ORC_MAX_VAR_SIZE);
@@ -763,6 +770,17 @@ orc_compiler_check_sizes (OrcCompiler *compiler)
         ORC_COMPILER_ERROR(compiler, "size mismatch, opcode %s src[%d] is %d should be %d",
             opcode->name, j, compiler->vars[insn->src_args[j]].size,
             multiplier * opcode->src_size[j]);
+        compiler->result = ORC_COMPILE_RESULT_UNKNOWN_PARSE;
+        return;
+      }
+      if (j == 0 && (opcode->flags & ORC_STATIC_OPCODE_LOAD) &&
+          !(opcode->flags & ORC_STATIC_OPCODE_INVARIANT) &&
+          compiler->vars[insn->src_args[j]].vartype != ORC_VAR_TYPE_SRC &&
+          compiler->vars[insn->src_args[j]].vartype != ORC_VAR_TYPE_DEST) {
+        /* the back ends take the address from ex->arrays[]: only arrays
+         * have one */
+        ORC_COMPILER_ERROR(compiler, "opcode %s loads from an array, its operand is not one",
+            opcode->name);
         compiler->result = ORC_COMPILE_RESULT_UNKNOWN_PARSE;
         return;
       }
